@@ -74,6 +74,11 @@ struct BmpStream : Family {
 			int64_t fh = static_cast<int64_t>(r.below(20));
 			if (r.chance(1, 2)) fh = -fh;
 			op.set("bits", static_cast<uint64_t>(fb)).set("w", r.below(90)).set("h", std::to_string(fh)).set("seed", hex64(r.next())).set("form", r.below(3));
+			if (r.chance(1, 12)) {
+				static const uint64_t XW[] = {0, 1, 31, 65536, 0x7fffffffull, 0x80000000ull, 0xffffffffull, 0xfffffff8ull};
+				static const int64_t XH[] = {0, 1, -1, 0x7fffffff, -0x7fffffff, -0x7fffffff - 1, 65536, -65536};
+				op.set("w", XW[r.below(8)]).set("h", std::to_string(XH[r.below(8)])).set("extreme", 1);
+			}
 			p.ops.push_back(op);
 		}
 		return p;
@@ -176,7 +181,9 @@ struct BmpStream : Family {
 			Rng r(op.u("seed", 1));
 			std::vector<Color> pal(static_cast<size_t>(r.range(form ? 1 : 0, 1ull << bits)));
 			for (auto& c : pal) { c.red = static_cast<uint8_t>(r.next()); c.green = static_cast<uint8_t>(r.next()); c.blue = static_cast<uint8_t>(r.next()); c.alpha = static_cast<uint8_t>(r.next()); }
-			size_t pitch = ref::bmpPitch(w, bits), rowBytes = ref::bmpRowBytes(w, bits), rows = static_cast<size_t>(h < 0 ? -h : h);
+			bool extreme = op.u("extreme", 0) != 0; // dimensions at the integer limits: the factory may refuse them (ordinary error) or make the bitmap
+			if (extreme) { form = 0; pal.clear(); }
+			size_t pitch = ref::bmpPitch(w, bits), rowBytes = ref::bmpRowBytes(w, bits), rows = extreme ? 0 : static_cast<size_t>(h < 0 ? -h : h);
 			std::vector<uint8_t> px(pitch * rows, 0);
 			for (size_t y = 0; y < rows; ++y) for (size_t k = 0; k < rowBytes; ++k) px[y * pitch + k] = static_cast<uint8_t>(r.next());
 			BitmapFile made, back;
@@ -186,6 +193,14 @@ struct BmpStream : Family {
 				else made = BitmapFile::CreateIndexed(static_cast<uint16_t>(bits), w, h, pal, px);
 			}, &what);
 			std::string desc = "CreateIndexed(" + std::to_string(bits) + ", " + std::to_string(w) + ", " + std::to_string(h) + (form ? ", palette" : "") + (form == 2 ? ", pixels" : "") + ")";
+			if (extreme) {
+				if (o == ErrOther) ctx.fail("C08.factory-equal", desc + " threw something that is not a std::exception");
+				ctx.count(o == OkOut ? "probe.extreme_factory_dimensions_made" : "probe.extreme_factory_dimensions_refused");
+				ctx.event("factory extreme");
+				// no round trip for pictures with more than 200 000 rows: a zero-width bitmap of 2^31 rows is legal (0 pixel bytes) but its
+				// row loops take minutes - finite, so not a defect, see DESIGN.md 9
+				if (o != OkOut || made.pixels.size() > (1u << 20) || (h < 0 ? -static_cast<int64_t>(h) : static_cast<int64_t>(h)) > 200000) continue;
+			}
 			if (o != OkOut) ctx.fail("C08.factory-equal", desc + " failed: " + what);
 			std::vector<uint8_t> fw = writeVia(plan, ctx, wb, "f" + std::to_string(oi), "C08.factory-equal", [&](Stream::Writer& wr) { made.WriteIndexed(wr); });
 			o = callLib(plan, [&] { ReaderBox b = openBackend("mem", fw, "fr", 1); back = BitmapFile::ReadIndexed(*b.rd); }, &what);
